@@ -12,14 +12,14 @@ CONFIG = {
 }
 
 
-@contract('plumpy.futures.CancellableAction.__init__', props=['C20'])
+@contract('plumpy.futures.CancellableAction.__init__', props=['C20', 'C04'])
 def ca_init(self, action, cookie=None):
     modifies(fields(self))
     raises_nothing()
     ensures('payload', self._action is action and self._cookie is cookie and self._state == 'PENDING')
 
 
-@contract('plumpy.futures.CancellableAction.run', props=['C20'])
+@contract('plumpy.futures.CancellableAction.run', props=['C20', 'C04', 'C05'])
 def ca_run(self, *args, **kwargs):
     requires(is_heap_obj(self._action) and not is_function(self._action))
     modifies(all_heap)
